@@ -69,13 +69,24 @@ def run(ctx):
             "partitions that disappeared stay routable; old leader survives")
     lead = [(n, v) for n, a, k, v in writes if a == "topics_to_brokers" and v is not None]
     okl = len(lead) == 2
+    import re as _re
+    total = True
     for n, v in lead:
-        neg = any(t.endswith(".leader == -1") and pol for t, pol in facts[n.id])
+        # "no usable leader": the id is -1, or (also) it is not in the reply's own broker list
+        neg = any(pol and _re.match(r"^(\S+\.leader == -1|\S+\.leader not in %s|\S+\.leader == -1 or \S+\.leader not in %s)$" % (mt.params[1], mt.params[1]), t)
+                  for t, pol in facts[n.id])
         pos = any(t.endswith(".leader == -1") and not pol for t, pol in facts[n.id])
         if isinstance(v, ast.Constant) and v.value is None:
             okl = okl and neg
         else:
-            okl = okl and pos and isinstance(v, ast.Subscript) and norm(v.value) == mt.params[1] and norm(v.slice).endswith(".leader")
+            okl = okl and pos and ((isinstance(v, ast.Subscript) and norm(v.value) == mt.params[1] and norm(v.slice).endswith(".leader")) or (
+                isinstance(v, ast.Call) and call_name(v) == "get" and call_recv(v) == mt.params[1] and v.args and norm(v.args[0]).endswith(".leader")))
+            if isinstance(v, ast.Subscript):
+                key_ = norm(v.slice)
+                total = total and (("%s in %s" % (key_, mt.params[1]), True) in facts[n.id] or ("%s not in %s" % (key_, mt.params[1]), False) in facts[n.id])
+    r.check(total, "%s#leader-lookup-total" % mt.qname, "the leader id a partition names is looked up in the reply's broker list without a membership "
+            "test (or .get)", where(mt, lp[0].stmt), "a reply that names a leader its own broker list does not contain (a broker that has just gone "
+            "away): KeyError half-way through the merge - the topic is left half-filled and unsorted, every later topic of the reply is skipped")
     r.check(okl, "%s#leader-mapping" % mt.qname, "leader -1 is not mapped to None / a leader id is not mapped to the reply's own broker entry",
             where(mt, lp[0].stmt), "leaderless partition routed to broker -1 (KeyError) or to a stale broker object")
     srt = [n for n, a, k, v in writes if a == "topic_partitions" and any(call_name(c) == "sort" for c in n.calls())]
@@ -341,6 +352,10 @@ def run(ctx):
 
 
 MUTANTS = [
+    {"id": "leader-lookup-unguarded", "file": "client.py",
+     "old": "                if meta.leader == -1 or meta.leader not in brokers:", "new": "                if meta.leader == -1:",
+     "expect": "C08.R1", "note": "finding F37"},
+
     {"id": "partition-meta-survives-topic-reset", "file": "client.py", "old": "                    self.partition_meta.pop(TopicAndPartition(topic, partition), None)\n", "new": "",
      "expect": "C08.R1", "note": "finding F24"},
     {"id": "no-per-topic-reset", "file": "client.py", "old": "            self.reset_topic_metadata(topic)\n            self.topic_errors[topic] = topic_error",
